@@ -311,11 +311,16 @@ fn derived(ctx: &mut Ctx, arena: &Arena) {
     }
     // ---------- ELF section headers
     for n in 0..=nmax.min(3) {
-        for spare in 0..24usize {
+        for spare_i in -24i64..24 {
             for shndx in 0..=(n + 1) as u32 {
               // which headers are in use (bit k set = header k has type 1, else type 0 = unused)
               for used in 0..(1u32 << n) {
-                if spare % 4 != 0 && used != (1u32 << n) - 1 {
+                let covered = spare_i >= 0;
+                let spare = spare_i.max(0) as usize;
+                if (spare_i % 4 != 0 || !covered) && used != (1u32 << n) - 1 {
+                    continue;
+                }
+                if !covered && (n == 0 || shndx as usize >= n) {
                     continue;
                 }
                 let size = 20 + 64 * n + spare;
@@ -335,6 +340,10 @@ fn derived(ctx: &mut Ctx, arena: &Arena) {
                 for i in 20 + 64 * n..size {
                     tut[i] = 0;
                 }
+                // declared size short of the stored section count by 1..=24 bytes: the last header reaches into what follows
+                let size = if covered { size } else { (size as i64 + spare_i) as usize };
+                tut.truncate(size);
+                wr32(&mut tut, 4, size as u32);
                 // follower: every 8-byte slot holds the address of the planted string
                 let mut payload = vec![];
                 for _ in 0..12 {
@@ -343,7 +352,7 @@ fn derived(ctx: &mut Ctx, arena: &Arena) {
                 let follower = bi::tag(0x4242, &payload);
                 let planted_pad = |_t: usize, _k: usize| 0u8;
                 let region = bi::region(&[tut.clone(), follower, bi::end_tag()], &planted_pad);
-                let describe = || J::obj().set("part", "derived/elf").set("in_use_mask", used).set("sections", n).set("spare_bytes", spare).set("shndx", shndx).set("declared_size", size).set("note", "section addr fields hold run-time addresses of static strings").set("region", J::hex(&region));
+                let describe = || J::obj().set("part", "derived/elf").set("in_use_mask", used).set("sections", n).set("spare_bytes", spare_i).set("shndx", shndx).set("declared_size", size).set("note", "section addr fields hold run-time addresses of static strings").set("region", J::hex(&region));
                 ctx.leaf(describe, |ctx| {
                     ctx.state_direct();
                     ctx.nontrivial();
@@ -360,7 +369,32 @@ fn derived(ctx: &mut Ctx, arena: &Arena) {
                     };
                     let inside_ok = (shndx as usize) < n;
                     let reaches_out = (shndx as usize + 1) * 64 > size - 20;
+                    // the deprecated getter on the boot information is a second way to the same iterator
+                    #[allow(deprecated)]
+                    let rd = ctx.call("elf_sections(deprecated)+name", || b.elf_sections().map(|it| it.map(|s| (rel(&s, p), s.name().map(|x| x.to_string()))).collect::<Vec<_>>()));
+                    if !covered {
+                        let r = ctx.call("sections", || tag.sections().map(|s| rel(&s, p)).count());
+                        for (label, refused) in [("elf_sections_tag().sections()", r.is_panic()), ("the deprecated elf_sections()", rd.is_panic())] {
+                            if !refused {
+                                ctx.violation("c05/derived/elf/short-tag-accepted", || format!("{} handed out sections of a tag of declared size {} that stores a count of {} headers of 64 bytes ({} bytes short): the last header lies beyond the declared size", label, size, n, -spare_i));
+                            }
+                        }
+                        ctx.class("derived:elf-short");
+                        return;
+                    }
                     let r = ctx.call("sections+name", || tag.sections().map(|s| s.name().map(|x| x.to_string())).collect::<Vec<_>>());
+                    match (&rd, &r) {
+                        (Out::Val(Some(a)), Out::Val(b2)) => {
+                            let an: Vec<_> = a.iter().map(|x| x.1.clone()).collect();
+                            if &an != b2 {
+                                ctx.violation("c05/derived/elf/deprecated-getter-differs", || format!("the deprecated elf_sections() yields {:?}, elf_sections_tag().sections() yields {:?}", an, b2));
+                            }
+                        }
+                        (Out::Val(None), _) => ctx.violation("c05/getter-none/ElfSections", || "elf_sections() returned nothing".into()),
+                        (Out::Panic, Out::Val(_)) if inside_ok => ctx.violation("c05/derived/elf/spurious-panic", || format!("the deprecated elf_sections() panicked: {} sections, string-table index {}", n, shndx)),
+                        (Out::Val(Some(a)), Out::Panic) if !a.is_empty() => ctx.violation("c05/derived/elf/deprecated-getter-differs", || format!("the deprecated elf_sections() yields {:?} where sections() + name() is refused", a)),
+                        _ => {}
+                    }
                     match r {
                         Out::Panic => {
                             ctx.ob("elf.name.panic", 1);
